@@ -17,7 +17,8 @@ DRIVER = "C10"
 RULE = ("correspondence: one driver line per call of the modelled function (sigencode_der, sigdecode_der, encode_integer, "
         "encode_length, read_length, remove_integer, remove_sequence, check_valid_signature-vs-BIP66 spec, to_bytes_32, "
         "public_pair_to_sec, sec_to_public_pair, points_for_x, Key.from_sec, Key(public_pair) for tuple/list/Point presentations "
-        "(key_public_arg), Key(secret_exponent), "
+        "(key_public_arg), bytes-like presentations of SEC/DER blobs and int presentations (the *_arg lines), "
+        "the same blob under several curves in sequence (history), Key(secret_exponent), "
         "Key.wif payload, ParseAPI.wif on a payload); distinct = distinct line; non-trivial = the model returns a value")
 PARTIAL = [
     "C10_der_roundtrip carries the hypothesis der_expressible (signature body shorter than 256^127 bytes: the limit of "
